@@ -12,7 +12,7 @@ from . import sym, extract
 from .sym import SVal, SInt, SBool, SOpt, SEnum, SSeq, Unsupported, _ie, _be, is_sym, merge
 from .spec import SSet, SpecFn, empty_set
 from .engine import (Engine, ReturnEx, BreakEx, ContinueEx, PathEnd, PyRaise, Opaque, HList, HSetList, HSymList,
-                     HIter, HMap, HFile, SObj, Closure, BoundMethod, Frame, Loop, Contract, call_by_names, conjuncts, MISSING, ConstFn, SUnion, HEnum)
+                     HIter, HMap, HFile, SObj, Closure, BoundMethod, Frame, Loop, Contract, call_by_names, conjuncts, MISSING, ConstFn, SUnion, HEnum, MethodOf, SuperProxy)
 
 
 def exc_matches(exc_type, handler_type):
@@ -52,7 +52,8 @@ class Interp(Engine):
             frame.loops = self.cur_loops
             args = {}
             hyps = []
-            for a in fs.node.args.args + fs.node.args.kwonlyargs:
+            extra_params = [x for x in (fs.node.args.vararg, fs.node.args.kwarg) if x is not None]
+            for a in fs.node.args.posonlyargs + fs.node.args.args + fs.node.args.kwonlyargs + extra_params:
                 nm = a.arg
                 if nm in config:
                     args[nm] = config[nm]
@@ -121,6 +122,10 @@ class Interp(Engine):
         """entry value of a parameter for old(): immutable views of mutable heap objects"""
         if isinstance(v, (HIter, HFile)):
             return SObj(pos=v.pos, data=v.seq)
+        if isinstance(v, SObj):
+            c = SObj()
+            c.__dict__["_f"].update(v.__dict__["_f"])
+            return c
         if isinstance(v, HSetList):
             return SObj(set=v.sset)
         if isinstance(v, HSymList):
@@ -849,7 +854,14 @@ class Interp(Engine):
             try:
                 return getattr(base, name)
             except AttributeError:
+                cls = base.__dict__["_f"].get("__class__")
+                if cls is not None:
+                    return self.class_attr(base, cls, cls.__mro__, name, node)
                 raise PyRaise(AttributeError, name, node)
+        if isinstance(base, SuperProxy):
+            cls = base.obj.__dict__["_f"].get("__class__")
+            mro = list(cls.__mro__)
+            return self.class_attr(base.obj, cls, mro[mro.index(base.after) + 1:], name, node)
         if isinstance(base, (HList, HSymList, HSetList, HIter, HMap, SSeq, SSet, BinStr, HFile)):
             return BoundMethod(base, name)
         if isinstance(base, SEnum):
@@ -864,6 +876,36 @@ class Interp(Engine):
             return getattr(base, name)
         except AttributeError:
             raise PyRaise(AttributeError, name, node)
+
+    def class_attr(self, obj, cls, mro, name, node):
+        for k in mro:
+            if name in k.__dict__:
+                v = k.__dict__[name]
+                if isinstance(v, types.FunctionType):
+                    return MethodOf(v, obj)
+                if isinstance(v, staticmethod):
+                    return v.__func__
+                if isinstance(v, classmethod):
+                    return MethodOf(v.__func__, cls)
+                if isinstance(v, property):
+                    return self.call(v.fget, [obj], {}, node, None)
+                if k is object:
+                    break
+                return v
+        raise PyRaise(AttributeError, name, node)
+
+    def instantiate(self, cls, args, kwargs, node, f):
+        obj = SObj(__class__=cls)
+        init = None
+        for k in cls.__mro__:
+            if "__init__" in k.__dict__:
+                init = k.__dict__["__init__"]
+                break
+        if isinstance(init, types.FunctionType) and _is_repo(init):
+            self.call(init, [obj] + list(args), kwargs, node, f)
+        elif args or kwargs:
+            raise Unsupported("instantiation of %s with arguments but no modelled __init__" % cls.__name__)
+        return obj
 
     def ex_Slice(self, e, f):
         return slice(self.eval(e.lower, f) if e.lower else None, self.eval(e.upper, f) if e.upper else None,
@@ -1093,6 +1135,10 @@ class Interp(Engine):
             return self.call_closure(fn, args, kwargs, node)
         if isinstance(fn, BoundMethod):
             return self.call_method(fn.recv, fn.name, args, kwargs, node, f)
+        if isinstance(fn, MethodOf):
+            return self.call(fn.func, [fn.obj] + list(args), kwargs, node, f)
+        if isinstance(fn, type) and _is_repo(fn) and not _is_namedtuple_or_dataclass(fn) and not issubclass(fn, BaseException):
+            return self.instantiate(fn, args, kwargs, node, f)
         if isinstance(fn, SpecFn):
             return fn(*args)
         if isinstance(fn, ConstFn):
@@ -1118,7 +1164,7 @@ class Interp(Engine):
             return self.call(fn.func, list(fn.args) + list(args), kw, node, f)
         if isinstance(fn, types.MethodType) and _is_repo(fn.__func__):
             return self.call(fn.__func__, [fn.__self__] + list(args), kwargs, node, f)
-        extc = self.contracts.get("%s:%s" % (getattr(fn, "__module__", None), getattr(fn, "__name__", None))) if not isinstance(fn, type) else None
+        extc = self.contracts.get("%s:%s" % (getattr(fn, "__module__", None), getattr(fn, "__name__", None))) if (not isinstance(fn, type) or fn is types.CodeType) else None
         if extc and not (isinstance(fn, types.FunctionType) and _is_repo(fn)):
             # assumed contract on an external dependency: its precondition is a proof obligation at the
             # call site, its result is opaque
@@ -1129,6 +1175,8 @@ class Interp(Engine):
             if c.requires is not None:
                 self.prove(call_by_names(c.requires, vals), "pre-of-%s" % c.qualname, getattr(node, "lineno", 0))
             self.assumed.add("external %s: assumed contract (result unmodelled)" % c.target)
+            if getattr(c, "external_result", None) is not None:
+                return c.external_result(self, list(args), kwargs)
             return Opaque(c.qualname, c.result_pytype)
         model = _BUILTIN_MODELS.get(_fn_key(fn))
         if model is not None:
@@ -1741,6 +1789,87 @@ def _m_fromkeys(self, args, kwargs, node, f):
         if not dup:
             kept.append(x)
     return HList(kept)
+
+
+@model(super)
+def _m_super(self, args, kwargs, node, f):
+    if args:
+        return SuperProxy(args[1], args[0])
+    fr = f
+    while fr is not None and "self" not in fr.vars:
+        fr = fr.parent
+    if fr is None:
+        raise Unsupported("zero-argument super() outside a method")
+    obj = fr.vars["self"]
+    clsname = fr.fname.split(".")[0]
+    mod = sys.modules.get(fr.modname)
+    cls = getattr(mod, clsname, None)
+    if cls is None:
+        raise Unsupported("zero-argument super(): enclosing class not found")
+    return SuperProxy(obj, cls)
+
+
+@model(type)
+def _m_type(self, args, kwargs, node, f):
+    if len(args) != 1:
+        raise Unsupported("three-argument type()")
+    v = args[0]
+    if isinstance(v, SObj):
+        cls = v.__dict__["_f"].get("__class__")
+        if cls is None:
+            raise Unsupported("type() of a record without a class")
+        return cls
+    if isinstance(v, Opaque):
+        if v.pytype is None:
+            raise Unsupported("type() of an untyped opaque value")
+        return v.pytype
+    if isinstance(v, SInt):
+        return int
+    if isinstance(v, SBool):
+        return bool
+    if isinstance(v, SSeq):
+        return {"bytes": bytes, "list": list, "tuple": tuple}[v.kind]
+    if isinstance(v, (HList, HSymList, HSetList)):
+        return list
+    if isinstance(v, SVal):
+        raise Unsupported("type() of %s" % type(v).__name__)
+    return type(v)
+
+
+@model(setattr)
+def _m_setattr(self, args, kwargs, node, f):
+    obj, name, val = args
+    if isinstance(obj, SObj) and not is_sym(name):
+        setattr(obj, name, val)
+        return None
+    raise Unsupported("setattr on %s" % type(obj).__name__)
+
+
+def _deepcopy_value(v, memo):
+    if isinstance(v, SObj):
+        if id(v) in memo:
+            return memo[id(v)]
+        new = SObj()
+        memo[id(v)] = new
+        for k, x in v.__dict__["_f"].items():
+            new.__dict__["_f"][k] = x if k == "__class__" else _deepcopy_value(x, memo)
+        return new
+    if isinstance(v, HList):
+        return HList([_deepcopy_value(x, memo) for x in v.items])
+    if isinstance(v, _LocalDict):
+        d = _LocalDict()
+        for k, x in v.items():
+            d[k] = _deepcopy_value(x, memo)
+        return d
+    return v          # immutable values (ints, bytes, tuples, tokens) are shared by deepcopy as well
+
+
+import copy as _copy
+
+
+@model(_copy.deepcopy, _copy.copy)
+def _m_deepcopy(self, args, kwargs, node, f):
+    return _deepcopy_value(args[0], {})
 
 
 @model(bool)
